@@ -38,11 +38,15 @@ E == [seq |-> <<>>, uid |-> <<>>, since |-> 0, before |-> 0, sentsince |-> 0,
 (* Meaning                                                                  *)
 
 InSet(n, s) == \E i \in 1..Len(s) : s[i][1] <= n /\ n <= s[i][2]
+\* "$" (RFC 5182): the messages of the saved search result.  It is a UID set that is no list of ranges - written
+\* <<<<0, 0>>>> here ('*' sets are not part of this specification) - and it means "m is in the saved result".
+SRes == << <<0, 0>> >>
+InUidSet(m, s) == IF s = SRes THEN m.saved ELSE InSet(m.uid, s)
 
 RECURSIVE Match(_, _)
 Match(c, m) ==
   /\ \A i \in 1..Len(c.seq) : InSet(m.seq, c.seq[i])
-  /\ \A i \in 1..Len(c.uid) : InSet(m.uid, c.uid[i])
+  /\ \A i \in 1..Len(c.uid) : InUidSet(m, c.uid[i])
   /\ c.since # 0 => m.date >= c.since
   /\ c.before # 0 => m.date < c.before
   /\ c.sentsince # 0 => (m.sent # NoDate /\ m.sent >= c.sentsince)
@@ -103,7 +107,8 @@ NumReps(sets) == LET R == {n \in Reps(SetThresholds(sets)) : n >= 1} IN IF R = {
 Universe(S) ==
   LET N == UNION {Nodes(c) : c \in S}
   IN [seq   : NumReps(UNION {Elems(c.seq) : c \in N}),
-      uid   : NumReps(UNION {Elems(c.uid) : c \in N}),
+      uid   : NumReps(UNION {Elems(c.uid) \ {SRes} : c \in N}),
+      saved : IF \E c \in N : SRes \in Elems(c.uid) THEN BOOLEAN ELSE {FALSE},
       date  : Reps(({c.since : c \in N} \cup {c.before : c \in N}) \ {0}),
       sent  : {NoDate} \cup Reps(({c.sentsince : c \in N} \cup {c.sentbefore : c \in N}) \ {0}),
       flags : SUBSET UNION {Elems(c.flag) \cup Elems(c.notflag) : c \in N},
@@ -204,7 +209,8 @@ Fields == {"seq", "uid", "since", "before", "sentsince", "sentbefore", "header",
            "text", "flag", "notflag", "larger", "smaller", "not", "or"}
 
 Values(f) ==
-  CASE f \in {"seq", "uid"} -> {<<>>, <<S1>>, <<S12>>, <<S2, S12>>, <<S13>>}
+  CASE f = "seq" -> {<<>>, <<S1>>, <<S12>>, <<S2, S12>>, <<S13>>}
+    [] f = "uid" -> {<<>>, <<S1>>, <<S12>>, <<S2, S12>>, <<S13>>, <<SRes>>, <<SRes, S12>>}
     [] f \in {"since", "before", "sentsince", "sentbefore"} -> {0, 2, 3, 4}
     [] f = "header" -> Lists2(H1, H2)
     [] f \in {"body", "text"} -> Lists2("n1", "n2")
